@@ -16,7 +16,9 @@
 //     does; 12% of the cases use names that differ only in case — outside the model's domain, these run
 //     through the monitors only and emit no line;
 //   - malformed stream: snapshots no exporter sends (panics, failing registrations) and messages rejected
-//     at protocol level.
+//     at protocol level;
+//   - composite keys colliding on one component (fleet.go): fixed multi-node witnesses, two symmetric nodes in
+//     nine shapes each, homogeneous fleets changing one component on several nodes per update.
 //
 // After every message the whole catalog is dumped with the CreateIndex / ModifyIndex of every row; the Lean model
 // (CV.Peer + CV.PeerIdx, driver cvd_c17) must reproduce result, command log (sorted), dump and CheckServiceNodes view. Snapshots go to the model in the node
@@ -27,12 +29,15 @@
 // the replication response the stream handler sends and forwarded to the importer above (processResponse),
 // also as op lines for the importer model. After every exporter-side write (exported-services config entry:
 // add / remove / swap in one write / wildcard / rewritten unchanged; instance registrations with changed
-// port, status or service name; deregistrations; check deletions) the harness forwards until everything
+// port, status or service name, with node-level and maintenance checks, of a non-typical kind under an exported
+// name, under a name that looks like a synthetic sidecar, connect-native; deregistrations; check deletions; node
+// deletions; batches of 2-3 writes that reach the subscription before the harness looks again) the harness forwards until everything
 // exported has reached the wire (no sleeps; a 4 s idle timeout only bounds the wait for an exporter that
 // withholds something) and checks the mirror property: for every service exported to the peer, the last
 // snapshot received since the importer last dropped it and CheckServiceNodes on the importer equal the
 // exporter's CheckServiceNodes modulo the documented normalisation (typical kinds, checks flattened into
-// "<id>:overall-check"); nothing else is left on the importer.
+// "<id>:overall-check", a maintenance check wins); nothing else is left on the importer; nothing sent carries
+// connect / proxy details or a look-alike sidecar name (export:connect-reference-leaked).
 //
 // Exporter duplicate suppression alone (playDedup). The real handleEvent (syncNormalServices,
 // sendPendingEvents, cleanupEventVersions) driven synchronously with list and snapshot events, every
@@ -1948,6 +1953,7 @@ type e2e struct {
 	late     map[string]bool   // a snapshot of the service was forwarded although the last forwarded list does not name it
 	writes   []string
 	failed   bool
+	hold     bool // writes are not followed by quiesce + mirror (a batch of exporter writes)
 }
 
 const (
@@ -2003,9 +2009,15 @@ func (x *e2e) exported() ([]string, map[string][]inst) {
 			}
 			it := inst{node: nodeDef{c.Node.Node, string(c.Node.ID), c.Node.Address}, svc: svcDef{c.Service.ID, c.Service.Service, c.Service.Port}}
 			if len(c.Checks) > 0 {
+				// aggregated status: a maintenance check wins, else the worst of critical > warning > passing
 				st := "passing"
 				for _, k := range c.Checks {
 					st = worst(st, k.Status)
+				}
+				for _, k := range c.Checks {
+					if string(k.CheckID) == "_node_maintenance" || strings.HasPrefix(string(k.CheckID), "_service_maintenance:") {
+						st = "maintenance"
+					}
 				}
 				it.chks = []chkDef{{c.Node.Node, c.Service.ID + ":overall-check", c.Service.ID, c.Service.Service, st}}
 			}
@@ -2054,6 +2066,15 @@ func (x *e2e) forward(evt cache.UpdateEvent) {
 			it.chks = append(it.chks, chkDef{k.Node, string(k.CheckID), k.ServiceID, k.ServiceName, k.Status})
 		}
 		is = append(is, it)
+		// what must never reach the wire for a plain exported service: mesh internals of the exporting cluster
+		if c.Service.Kind != structs.ServiceKindTypical || c.Service.Connect.Native || c.Service.Connect.SidecarService != nil ||
+			c.Service.Proxy.DestinationServiceName != "" || strings.HasSuffix(c.Service.Service, "-sidecar-proxy") ||
+			c.Service.TaggedAddresses[structs.TaggedAddressVirtualIP].Address != "" {
+			report(x.run, "export:connect-reference-leaked", fmt.Sprintf("the snapshot of %s sent to the peer carries instance %s/%s with kind=%q connect-native=%v proxy-destination=%q name=%q: connect / proxy details and look-alike sidecars of the exporting cluster must be withheld",
+				resp.ResourceID, c.Node.Node, c.Service.ID, c.Service.Kind, c.Service.Connect.Native, c.Service.Proxy.DestinationServiceName, c.Service.Service),
+				append(append([]string(nil), x.writes...), x.se.hist...))
+			x.failed = true
+		}
 	}
 	name := resp.ResourceID
 	if x.gotList && !contains(x.lastList, name) && len(is) > 0 {
@@ -2191,6 +2212,9 @@ func (x *e2e) write(desc string, f func() error) {
 		panic(fmt.Sprintf("exporter write %s: %v", desc, err))
 	}
 	x.writes = append(x.writes, "# exporter: "+desc)
+	if x.hold {
+		return // coalesced: several writes reach the subscription before the harness looks again
+	}
 	x.quiesce()
 	x.mirror()
 }
@@ -2226,6 +2250,40 @@ func (x *e2e) register(node, addr, sid, sname string, port int, status string) {
 	})
 }
 
+type regOpt struct {
+	nodeCheck, nodeCheckStatus string // a node-level check registered along
+	maint                      string // "", "node" or "service": a maintenance-mode check
+	kind                       structs.ServiceKind
+	native                     bool // connect-native instance
+}
+
+func (x *e2e) registerX(node, addr, sid, sname string, port int, status string, o regOpt) {
+	svc := &structs.NodeService{Kind: structs.ServiceKindTypical, ID: sid, Service: sname, Port: port}
+	if o.kind == structs.ServiceKindConnectProxy {
+		svc.Kind = o.kind
+		svc.Proxy = structs.ConnectProxyConfig{DestinationServiceName: "dest-" + sid}
+	}
+	if o.native {
+		svc.Connect = structs.ServiceConnect{Native: true}
+	}
+	req := &structs.RegisterRequest{Datacenter: "dc1", Node: node, Address: addr, Service: svc}
+	if status != "" {
+		req.Checks = append(req.Checks, &structs.HealthCheck{Node: node, CheckID: types.CheckID("service:" + sid), Name: "c", Status: status, ServiceID: sid})
+	}
+	if o.nodeCheck != "" {
+		req.Checks = append(req.Checks, &structs.HealthCheck{Node: node, CheckID: types.CheckID(o.nodeCheck), Name: "n", Status: o.nodeCheckStatus})
+	}
+	switch o.maint {
+	case "node":
+		req.Checks = append(req.Checks, &structs.HealthCheck{Node: node, CheckID: "_node_maintenance", Name: "m", Status: "critical"})
+	case "service":
+		req.Checks = append(req.Checks, &structs.HealthCheck{Node: node, CheckID: types.CheckID("_service_maintenance:" + sid), Name: "m", Status: "critical", ServiceID: sid})
+	}
+	x.write(fmt.Sprintf("register %s/%s=%s:%d kind=%q native=%v check=%s nodecheck=%s:%s maint=%s", node, sid, sname, port, svc.Kind, o.native, status, o.nodeCheck, o.nodeCheckStatus, o.maint), func() error {
+		return x.store.EnsureRegistration(x.next(), req)
+	})
+}
+
 func (x *e2e) finish(tag string) {
 	x.cancel()
 	x.run.Tag("e2e:" + tag)
@@ -2242,6 +2300,34 @@ func runE2ECorpus(run *hx.Run) {
 	x.export([]string{"api"}, false)
 	x.export([]string{"api", "web"}, false)
 	x.finish("corpus:swap-then-re-export-unchanged")
+}
+
+// the exporter's documented normalisation, one fixed history: instances that must be withheld (non-typical kind
+// under an exported name, a name that looks like a synthetic sidecar), connect-native instances (sent as plain
+// ones), node-level and maintenance checks folded into the one overall check, the same ids on two nodes
+func runE2ECorpusNormalisation(run *hx.Run) {
+	x := newE2E(run)
+	x.write("subscribe", func() error { return nil })
+	x.export([]string{"web"}, false)
+	x.registerX("n1", "10.0.0.1", "web1", "web", 80, "passing", regOpt{nodeCheck: "serfHealth", nodeCheckStatus: "warning"})
+	x.registerX("n2", "10.0.0.2", "web1", "web", 80, "passing", regOpt{nodeCheck: "serfHealth", nodeCheckStatus: "passing"})
+	x.registerX("n1", "10.0.0.1", "webp", "web", 21000, "passing", regOpt{kind: structs.ServiceKindConnectProxy})
+	x.registerX("n2", "10.0.0.2", "web2", "web", 8080, "", regOpt{native: true})
+	x.registerX("n2", "10.0.0.2", "web1", "web", 80, "passing", regOpt{maint: "service"})
+	x.registerX("n1", "10.0.0.1", "web1", "web", 80, "passing", regOpt{maint: "node"})
+	x.write("delete node check _node_maintenance of n1", func() error {
+		return x.store.DeleteCheck(x.next(), "n1", "_node_maintenance", nil, "")
+	})
+	x.registerX("n1", "10.0.0.1", "side", "api-sidecar-proxy", 80, "passing", regOpt{})
+	x.registerX("n1", "10.0.0.1", "api1", "api", 80, "critical", regOpt{})
+	x.export([]string{"*"}, false)
+	// both nodes lose their serf check in one batch of writes
+	x.hold = true
+	x.write("delete node check serfHealth of n1", func() error { return x.store.DeleteCheck(x.next(), "n1", "serfHealth", nil, "") })
+	x.hold = false
+	x.write("delete node check serfHealth of n2", func() error { return x.store.DeleteCheck(x.next(), "n2", "serfHealth", nil, "") })
+	x.write("delete node n2", func() error { return x.store.DeleteNode(x.next(), "n2", nil, "") })
+	x.finish("corpus:exporter-normalisation")
 }
 
 func runE2ECase(run *hx.Run, r *hx.RNG) {
@@ -2262,8 +2348,44 @@ func runE2ECase(run *hx.Run, r *hx.RNG) {
 	}
 	type key struct{ node, sid string }
 	regs := map[key]bool{}
+	batch := 0
 	for k := 5 + r.Intn(8); k > 0 && !x.failed; k-- {
-		switch c := r.Intn(12); {
+		// coalesced updates: 2-3 exporter writes before the harness forwards anything and checks the mirror
+		if batch == 0 && r.Chance(20) {
+			batch = 2 + r.Intn(2)
+			x.hold = true
+			run.Tag("e2e:batch-of-writes")
+		} else if batch > 0 {
+			if batch--; batch == 0 {
+				x.hold = false
+			}
+		}
+		switch c := r.Intn(14); {
+		case c >= 12: // something happens to a whole node
+			node := hx.Pick(r, nodes)
+			if c == 12 {
+				for kk := range regs {
+					if kk.node == node {
+						delete(regs, kk)
+					}
+				}
+				x.write("delete node "+node, func() error { return x.store.DeleteNode(x.next(), node, nil, "") })
+				run.Tag("e2e:delete-node")
+			} else {
+				cid := hx.Pick(r, []string{"serfHealth", "nc1", "_node_maintenance"})
+				if r.Chance(50) {
+					x.write(fmt.Sprintf("delete node check %s of %s", cid, node), func() error {
+						return x.store.DeleteCheck(x.next(), node, types.CheckID(cid), nil, "")
+					})
+					run.Tag("e2e:delete-node-check")
+				} else if n, _ := x.nodeKnown(node); n {
+					st := hx.Pick(r, statuses)
+					x.write(fmt.Sprintf("node check %s of %s = %s", cid, node, st), func() error {
+						return x.store.EnsureCheck(x.next(), &structs.HealthCheck{Node: node, CheckID: types.CheckID(cid), Name: "n", Status: st})
+					})
+					run.Tag("e2e:node-check")
+				}
+			}
 		case c < 5: // exported-services config entry write
 			switch r.Intn(6) {
 			case 0: // rewritten unchanged
@@ -2307,7 +2429,27 @@ func runE2ECase(run *hx.Run, r *hx.RNG) {
 		case c < 9: // (re-)registration: new instance, changed port / status, instance id changing service
 			node, sid := hx.Pick(r, nodes), hx.Pick(r, sids)
 			regs[key{node, sid}] = true
-			x.register(node, "10.0.0."+node[1:], sid, hx.Pick(r, names), hx.Pick(r, ports), hx.Pick(r, []string{"", "passing", "warning", "critical"}))
+			var o regOpt
+			sname := hx.Pick(r, names)
+			if r.Chance(25) {
+				o.nodeCheck, o.nodeCheckStatus = hx.Pick(r, []string{"serfHealth", "nc1"}), hx.Pick(r, statuses)
+				run.Tag("e2e:register-with-node-check")
+			}
+			switch v := r.Intn(20); {
+			case v < 2:
+				o.maint = hx.Pick(r, []string{"node", "service"})
+				run.Tag("e2e:register-maintenance-" + o.maint)
+			case v < 4:
+				o.kind = structs.ServiceKindConnectProxy
+				run.Tag("e2e:register-connect-proxy-under-exported-name")
+			case v < 6:
+				sname += "-sidecar-proxy"
+				run.Tag("e2e:register-name-with-sidecar-suffix")
+			case v < 8:
+				o.native = true
+				run.Tag("e2e:register-connect-native")
+			}
+			x.registerX(node, "10.0.0."+node[1:], sid, sname, hx.Pick(r, ports), hx.Pick(r, []string{"", "passing", "warning", "critical"}), o)
 			run.Tag("e2e:register")
 		case c < 11:
 			for kk := range regs {
@@ -2328,7 +2470,17 @@ func runE2ECase(run *hx.Run, r *hx.RNG) {
 			}
 		}
 	}
+	if x.hold {
+		x.hold = false
+		x.write("end of batch", func() error { return nil })
+	}
 	x.finish("generated")
+}
+
+// nodeKnown: the exporting cluster has the node (EnsureCheck needs it)
+func (x *e2e) nodeKnown(node string) (bool, error) {
+	_, n, err := x.store.GetNode(node, nil, "")
+	return n != nil, err
 }
 
 // ---------------------------------------------------------------- malformed / protocol-level stream
@@ -2646,22 +2798,29 @@ func runExportCase(run *hx.Run, r *hx.RNG) {
 
 func main() {
 	run := hx.Start()
-	run.Rule = "one case = a fresh importing cluster (real FSM + state store + peerstream.Server), a random prior catalog (local, other peers, earlier imports) and 3-8 replication messages taken from a mutating simulated exporter (or arbitrary snapshots), each followed by a full catalog dump and the monitors; or one exported-services configuration queried for 3 peers; plus exporter duplicate-suppression histories (real handleEvent, synchronous) and exporter->importer histories (real subscriptionManager + event publisher feeding the real importer, mirror check after every exporter write); plus 8 fixed corpus histories and, in the thorough tier, 968 exhaustive snapshot pairs; cases with names differing only in case (12%) run through the monitors only; distinct by the full op history; non-trivial = at least one catalog command was issued / at least one export entry exists"
+	run.Rule = "one case = a fresh importing cluster (real FSM + state store + peerstream.Server), a random prior catalog (local, other peers, earlier imports) and 3-8 replication messages taken from a mutating simulated exporter (or arbitrary snapshots), each followed by a full catalog dump and the monitors; or one exported-services configuration queried for 3 peers; plus exporter duplicate-suppression histories (real handleEvent, synchronous) and exporter->importer histories (real subscriptionManager + event publisher feeding the real importer, mirror check after every exporter write); plus fixed corpus histories (one per known finding; two-/three-node witnesses of composite keys colliding on one component; the exporter's normalisation), two symmetric nodes with the same ids in 9 shapes each (quick: symmetric priors x all new snapshots + a per-seed sample; thorough: the whole scope, 7290 histories), homogeneous fleets of 2-4 nodes changing one component on several nodes per update and, in the thorough tier, 968 exhaustive snapshot pairs; cases with names differing only in case (12%) run through the monitors only; distinct by the full op history; non-trivial = at least one catalog command was issued / at least one export entry exists"
 	runCorpus(run)
+	runCollisionCorpus(run)
 	playDedup(run, []xev{{list: true, names: []string{"web"}}, {name: "web", h: 1}, {list: true, names: []string{"api"}},
 		{name: "api", h: 2}, {list: true, names: []string{"api", "web"}}, {name: "web", h: 1}, {name: "api", h: 2}}, "corpus:swap-then-re-export-unchanged")
 	runE2ECorpus(run)
+	runE2ECorpusNormalisation(run)
 	runQueuedAfterUnexport(run)
 	for i := run.Scale(40, 400); i > 0; i-- {
 		runDedupCase(run, run.RNG.Fork(uint64(1000000+i)))
 	}
-	for i := run.Scale(25, 250); i > 0; i-- {
+	for i := run.Scale(50, 400); i > 0; i-- {
 		runE2ECase(run, run.RNG.Fork(uint64(2000000+i)))
 	}
 	if run.Thorough() {
 		run.Extra["exhaustive"] = true
 		run.Extra["exhaustive_scope"] = "all (prior, new) snapshot pairs of one service over 2 nodes x 3 instance slots x {node check, service check}, with and without a second imported service on the shared node"
 		run.Extra["exhaustive_cases"] = runExhaustive(run)
+	}
+	run.Extra["symmetric_pairs"] = runSymmetricPairs(run, run.RNG.Fork(3000000))
+	for i := run.Scale(70, 700); i > 0; i-- {
+		r := run.RNG.Fork(uint64(4000000 + i))
+		runFleetCase(run, r, r.Chance(25))
 	}
 	n := run.Scale(260, 2600)
 	for i := 0; i < n; i++ {
